@@ -47,7 +47,7 @@ func (r *Raft) replyRPC(rpc *rpc) (resetTimer bool) {
 			rpc.resp = rpcIdentity.createResp(r, success, nil)
 		}
 		close(rpc.done)
-		return req.src == r.leader
+		return rpc.resp.getResult() == success && req.src == r.leader
 	}
 
 	if trace {
